@@ -80,7 +80,12 @@ def main():
         # 2. apply
         rc, out = sh(["git", "-C", wt, "apply", os.path.abspath(a.patch)])
         if rc != 0:
-            sys.exit("patch does not apply: " + out)
+            # /repo moved on since the patch was written (fix: commits): try a 3-way merge
+            rc, out2 = sh(["git", "-C", wt, "apply", "--3way", os.path.abspath(a.patch)])
+            if rc != 0:
+                sys.exit("patch does not apply: " + out + out2)
+            sh(["git", "-C", wt, "reset", "-q"])
+            meta["ran"].append("patch applied with git apply --3way (repository HEAD moved since the patch was written)")
         rc, out = sh(["cargo", "build", "--workspace", "--offline"], cwd=wt, env=env)
         meta["build_rc"] = rc
         meta["ran"].append("cargo build --workspace --offline (patched) -> rc %d" % rc)
